@@ -390,6 +390,7 @@ func (w *World) publish(arg string) bool {
 	msgs := make([]klevdb.Message, len(specs))
 	want := make([]model.Msg, len(specs))
 	t := w.M.LastT
+	huge := false
 	for i, sp := range specs {
 		f := strings.Split(sp, "/")
 		if len(f) != 3 {
@@ -425,6 +426,10 @@ func (w *World) publish(arg string) bool {
 			for j := range val {
 				val[j] = byte(int(off)*31 + j*7 + 1)
 			}
+		case f[2] == "H":
+			// one byte above the 64 MiB body limit: the whole batch is expected to be rejected
+			val = hugeValue()
+			huge = true
 		default:
 			panic("bad value spec " + f[2])
 		}
@@ -439,6 +444,12 @@ func (w *World) publish(arg string) bool {
 	}
 	w.begin("Publish")
 	next, err := w.L.Publish(msgs)
+	if err != nil && huge {
+		// a rejected batch publishes nothing: the model stays as it is and everything
+		// observed from here on (also after reopen) must agree with it
+		w.end("Publish", -1)
+		return true
+	}
 	if err != nil {
 		w.end("Publish", -1)
 		w.failf("C01,C02", "Publish(%d msgs) failed: %v", len(msgs), err)
@@ -473,6 +484,16 @@ func (w *World) publish(arg string) bool {
 		}
 	}
 	return true
+}
+
+var hugeBuf []byte
+
+// hugeValue is a shared value one byte above the 64 MiB body limit.
+func hugeValue() []byte {
+	if hugeBuf == nil {
+		hugeBuf = make([]byte, 64<<20+1)
+	}
+	return hugeBuf
 }
 
 // SegVersions maps each segment base offset to its format version (1|2),
